@@ -27,20 +27,22 @@ MIN_BUDGET = 25
 MIN_WALL = 300.0
 
 RULE = (
-    "one evaluation = one batch (program, dataset, options) = a canonical single-core run plus 3-6 perturbed runs in the same interpreter; "
+    "one evaluation = one batch (program, dataset, options) = a canonical single-core run plus 3-6 perturbed runs in the same interpreter, or (8%) one library history: a seeded sampler "
+    "object (assemble / call / pedigree) fitted at once vs constructed early / refitted / fitted after another model, with other work on both generators in between; "
     "distinct_nontrivial = distinct SHA-256 of the IPC event sequence (who reached which synchronisation point in which order) among the multi-core runs"
 )
 FAULT_KEYS = ["locus_subset_empty", "policy_uniform", "policy_sticky", "policy_starve_writer", "policy_starve_main", "policy_eager_main", "policy_last_first", "schedule_choices", "multi_core_runs", "cores_gt_loci", "locus_order", "locus_subset", "region_single", "prior_work", "proc_rng_init",
               "clock_jump", "small_stdout_buffer", "buffer_full_write", "failing_locus_injected", "failing_locus_real", "fork_unflushed"]
 PROBE_KEYS = ["runs_total", "multi_core_runs", "failing_locus_in_worker", "failing_locus_single_core", "empty_block", "records_compared",
-              "header_compared", "torn_tail_on_failure", "programs_assemble", "programs_call", "programs_call_exact", "programs_call_pedigree"]
+              "header_compared", "torn_tail_on_failure", "library_fits", "library_histories", "programs_assemble", "programs_call", "programs_call_exact", "programs_call_pedigree"]
 OPTIONAL_PROBES = {"quick": ("torn_tail_on_failure",), "thorough": ()}
 COMPONENTS = {
     "real": ["mchap.application.{assemble,call,call_exact,call_pedigree}.program.cli / run_stdout / _run_stdout_multi_core / _worker / _writer / call_locus (compiled, JIT on)",
-             "pysam on real BAM / VCF / FASTA / BED files", "the compiled samplers with their own seeded RNGs", "record formatting"],
+             "pysam on real BAM / VCF / FASTA / BED files", "the compiled samplers with their own seeded RNGs", "record formatting",
+             "library histories: DenovoMCMC / CallingMCMC / PedigreeCallingMCMC construct + fit (compiled)"],
     "stub": ["multiprocessing (SimMP: unbounded FIFO manager queue, Pool of simulated processes = parked threads, AsyncResult re-raising the task's exception)",
              "OS scheduler (tape-driven, pre-emption only at IPC points)", "sys.stdout (per-process buffers over one shared file, fork semantics)",
-             "datetime.date.today (simulated calendar)"],
+             "datetime.date.today (simulated calendar)", "pysam file objects (wrapped: fork semantics of inherited open file descriptions)"],
 }
 ASSUMPTIONS = [
     "simulated processes share one interpreter: a worker sees RNG state left by other workers' fits - a superset of the histories a forked worker can see",
@@ -100,6 +102,11 @@ def child_init(config):
 
 
 def gen_config(rng, tier, index=0):
+    if rng.random() < 0.08:
+        # library histories: "traces of repeated .fit() calls interleaved with other work in one process"
+        return {"program": "library", "sampler": rng.choice(["assemble", "call", "call", "pedigree"]), "data_seed": rng.randrange(2 ** 31),
+                "mcmc_seed": rng.choice([0, 1, 11, 42, 12345, 2 ** 31 - 1]), "chains": rng.choice([1, 2]), "steps": rng.choice([20, 40]),
+                "histories": [rng.choice(["construct_early", "refit", "construct_early", "two_models"]) for _ in range(rng.choice([2, 3]))]}
     program = rng.choice(PROGRAMS)
     use_simple = rng.random() < 0.3
     n_var = rng.randint(3, 6)
@@ -309,7 +316,102 @@ class Batch:
         self.ctx.counters.inc("prior_work")
 
 
+def run_library(ctx):
+    """The seeded sampler classes as a library: a fit's trace must not depend on what the process did before - other fits, raw
+    draws from either generator, the model having been constructed long before it is fitted, or fitted before."""
+    import random as _random
+    m = bootstrap()
+    np = m["np"]
+    cfg = ctx.config
+    rng = _random.Random(cfg["data_seed"])
+    t = ctx.tape
+    n_pos = rng.choice([2, 3])
+    n_reads = rng.choice([2, 4, 6])
+
+    def gen_reads():
+        r = np.zeros((n_reads, n_pos, 2))
+        for k in range(n_reads):
+            for j in range(n_pos):
+                a = rng.randrange(2)
+                p = rng.choice([0.6, 0.7, 0.9])
+                r[k, j, :] = 1 - p
+                r[k, j, a] = p
+        return r
+
+    reads = gen_reads()
+    counts = np.array([rng.choice([1, 1, 2]) for _ in range(n_reads)], dtype=np.int64)
+    haps = np.array([[0] * n_pos, [1] * n_pos, [0] + [1] * (n_pos - 1), [1] + [0] * (n_pos - 1)], dtype=np.int8)
+    seed = cfg["mcmc_seed"]
+    kind = cfg["sampler"]
+
+    def construct(sd):
+        if kind == "assemble":
+            return m["amcmc"].DenovoMCMC(ploidy=4, n_alleles=[2] * n_pos, steps=cfg["steps"], chains=cfg["chains"], random_seed=sd, fix_homozygous=2.0,
+                                         temperatures=(0.3, 1.0))
+        if kind == "call":
+            return m["cclasses"].CallingMCMC(ploidy=4, haplotypes=haps, steps=cfg["steps"], chains=cfg["chains"], random_seed=sd)
+        return m["pclasses"].PedigreeCallingMCMC(sample_ploidy=np.array([2, 2, 2]), sample_inbreeding=np.zeros(3), sample_parents=np.array([[-1, -1], [-1, -1], [0, 1]]),
+                                                 gamete_tau=np.ones((3, 2), dtype=int), gamete_lambda=np.zeros((3, 2)), gamete_error=np.full((3, 2), 0.01),
+                                                 haplotypes=haps, steps=cfg["steps"], annealing=5, chains=cfg["chains"], random_seed=sd)
+
+    ped_reads = np.stack([reads, gen_reads(), gen_reads()])
+    ped_counts = np.stack([counts, counts, counts])
+
+    def fit(model, other=False):
+        if kind == "pedigree":
+            tr = model.fit(sample_reads=ped_reads if not other else ped_reads[::-1].copy(), sample_read_counts=ped_counts)
+        else:
+            tr = model.fit(reads if not other else reads[::-1].copy(), read_counts=counts)
+        return np.array(tr.genotypes), (np.array(tr.llks) if hasattr(tr, "llks") and tr.llks is not None else None)
+
+    def other_work():
+        k = t.int(0, 3)
+        if k in (0, 3):
+            np.random.seed(t.int(0, 2 ** 31 - 1))
+            m["jitutils"].seed_numba(t.int(0, 2 ** 31 - 1))
+        if k in (1, 3):
+            for _ in range(t.int(1, 5)):
+                np.random.rand()
+            m["jitutils"].random_choice(np.array([0.25, 0.25, 0.5]))
+        if k == 2:
+            fit(construct(t.int(0, 10 ** 6)), other=True)
+        ctx.counters.inc("prior_work")
+
+    def same(a, b):
+        if not np.array_equal(a[0], b[0]):
+            return False
+        if a[1] is None or b[1] is None:
+            return a[1] is None and b[1] is None
+        return np.array_equal(np.nan_to_num(a[1], nan=-1e300), np.nan_to_num(b[1], nan=-1e300))
+
+    base = fit(construct(seed))
+    ctx.counters.inc("library_fits")
+    for hi, h in enumerate(cfg["histories"]):
+        ctx.step = hi + 1
+        if h == "construct_early":
+            mdl = construct(seed)
+            other_work()
+            got = fit(mdl)
+        elif h == "refit":
+            mdl = construct(seed)
+            fit(mdl, other=t.chance(0.5))
+            other_work()
+            got = fit(mdl)
+        else:
+            m1, m2 = construct(seed), construct(t.int(0, 10 ** 6))
+            fit(m2, other=True)
+            got = fit(m1)
+        ctx.counters.inc("library_histories")
+        ctx.log.add("library", kind, h, int(got[0].sum()))
+        if not same(got, base):
+            raise Violation("fit_depends_on_history", "%s sampler, seed %r: the trace of fit() after the history '%s' differs from the trace of a model constructed and fitted at once"
+                            % (kind, seed, h), step=hi + 1, detail={"sampler": kind, "history": h, "seed": seed})
+    ctx.key("library", kind, seed, tuple(cfg["histories"]), int(base[0].sum()))
+
+
 def execute(ctx):
+    if ctx.config["program"] == "library":
+        return run_library(ctx)
     b = Batch(ctx)
     try:
         run_batch(ctx, b)
@@ -570,6 +672,13 @@ def sut_exception_is_violation(e, ctx):
 def shrink_candidates(cfg, violation):
     out = []
     step = (violation or {}).get("step")
+    if cfg["program"] == "library":
+        hs = cfg["histories"]
+        if isinstance(step, int) and 1 <= step <= len(hs) and len(hs) > 1:
+            out.append(dict(cfg, histories=[hs[step - 1]]))
+        if cfg["chains"] > 1:
+            out.append(dict(cfg, chains=1))
+        return out
     vs = cfg["variants"]
     if isinstance(step, int) and step >= 1 and len(vs) > 1:
         c = dict(cfg)
